@@ -304,4 +304,236 @@ theorem step_abs_unsubscribe (auth : Auth) (b : B) (c : Conn) (mid : UInt16) (to
       rw [step_unsubscribe_eq auth b c.name c mid topic g hc ha hv hauth hx]
       exact absStore_unsubscribeConn hnd hc _ _
 
+theorem step_publish_keep (auth : Auth) (b : B) (name : String) (c : Conn) (qos : UInt8) (retain : Bool)
+    (mid : UInt16) (topic payload : Bytes) (g : Grant)
+    (hc : b.conn? name = some c) (ha : c.alive = true)
+    (hs : (parseChannel (resolve c topic)).ctype = chStatic)
+    (hauth : auth b.banned (parseChannel (resolve c topic)) permWrite = some g) (hx : g.has permExtend = false) :
+    (step auth b name (.publish qos retain mid topic payload)).1 =
+      keep b g (parseChannel (resolve c topic)) retain payload := by
+  have hi := static_ne_invalid hs
+  unfold resolve at hs hauth hi ⊢
+  simp only [step, hc]; rw [if_neg (by simp [ha])]
+  generalize (if topic.length ≤ 2 then ((c.links.find? (·.1 == topic)).map (·.2)).getD [] else topic) = t at hs hauth hi ⊢
+  rw [if_neg (by simpa using hi), if_neg (by simp [hs])]
+  simp only [hauth, hx, Bool.false_eq_true, if_false]
+  rfl
+
+theorem absStore_banned (b : B) : (absStore b).banned = b.banned := rfl
+theorem absStore_retention (b : B) : (absStore b).retention = b.retain := rfl
+theorem absStore_log (b : B) : (absStore b).log = absLog b.store := rfl
+
+theorem resolve_abs (c : Conn) (topic : Bytes) : (absInfo c).resolve topic = resolve c topic := rfl
+
+theorem Spec.with_log_nil (s : Spec.StoreState) : { s with log := s.log ++ (none : Option Spec.Rec).toList } = s := by
+  simp
+
+theorem step_abs_publish (auth : Auth) (b : B) (c : Conn) (qos : UInt8) (retain : Bool) (mid : UInt16)
+    (topic payload : Bytes) (hc : b.conn? c.name = some c) (ha : c.alive = true) :
+    absStore (step auth b c.name (.publish qos retain mid topic payload)).1 =
+      Spec.stepStore auth (absStore b) c.name (.publish qos retain mid topic payload) := by
+  have hi := client?_of_conn hc
+  have ho : (absInfo c).open_ = true := ha
+  simp only [Spec.stepStore, hi, ho, Spec.appended, resolve_abs, absStore_banned]
+  by_cases hbad : (parseChannel (resolve c topic)).ctype ≠ chStatic ∨
+            auth b.banned (parseChannel (resolve c topic)) permWrite = none ∨
+            ∃ g, auth b.banned (parseChannel (resolve c topic)) permWrite = some g ∧ g.has permExtend = true
+  · obtain ⟨st, hst⟩ := reject_publish auth b c.name c qos retain mid topic payload hc ha hbad
+    rw [hst, Spec.stored_refused _ _ _ _ hbad]
+    simp only [Option.toList_none, List.append_nil, Bool.not_true, Bool.false_eq_true, if_false]
+    rfl
+  · simp only [not_or, Decidable.not_not, not_exists, not_and] at hbad
+    obtain ⟨hst, hne, hnx⟩ := hbad
+    cases hauth : auth b.banned (parseChannel (resolve c topic)) permWrite with
+    | none => exact absurd hauth hne
+    | some g =>
+        have hx : g.has permExtend = false := by
+          cases h : g.has permExtend with
+          | false => rfl
+          | true => exact absurd h (hnx g hauth)
+        rw [step_publish_keep auth b c.name c qos retain mid topic payload g hc ha hst hauth hx, absStore_keep,
+          Spec.stored_accepted _ _ _ _ hst hauth hx]
+        rfl
+
+theorem step_abs_link (auth : Auth) (b : B) (c : Conn) (mid : UInt16) (nm key channel : Bytes) (sub : Bool)
+    (hnd : (b.conns.map (·.name)).Nodup) (hc : b.conn? c.name = some c) (ha : c.alive = true) :
+    absStore (step auth b c.name (.link mid nm key channel sub)).1 =
+      Spec.stepStore auth (absStore b) c.name (.link mid nm key channel sub) := by
+  have hi := client?_of_conn hc
+  have ho : (absInfo c).open_ = true := ha
+  simp only [Spec.stepStore, hi, ho, Spec.appended, Option.toList_none, List.append_nil, Bool.not_true,
+    Bool.false_eq_true, if_false]
+  simp only [step, hc]; rw [if_neg (by simp [ha])]
+  split
+  · rename_i h1
+    simp only [Bool.not_eq_true'] at h1
+    simp only [h1, Bool.false_and, Bool.false_eq_true, if_false]
+  rename_i h1
+  simp only [Bool.not_eq_true', Bool.not_eq_false] at h1
+  split
+  · rename_i h2
+    simp only [beq_iff_eq] at h2
+    simp only [h2, bne_self_eq_false, Bool.and_false, Bool.false_eq_true, if_false]
+  rename_i h2
+  have h2' : ((parseChannel (key ++ [sep] ++ channel)).ctype != chInvalid) = true := by
+    simpa using h2
+  simp only [h1, h2', Bool.and_self, if_true]
+  generalize hlk : ((nm, (parseChannel (key ++ [sep] ++ channel)).toBytes) :: c.links.filter (fun x => x.1 != nm)) = lk
+  have hc1 : (b.setConn { c with links := lk }).conn? c.name = some { c with links := lk } :=
+    conn?_setConn (c := { c with links := lk }) ⟨c, conn?_mem hc, rfl⟩
+  have hnd1 : ((b.setConn { c with links := lk }).conns.map (·.name)).Nodup := by
+    rw [setConn_names]; exact hnd
+  have hset : absStore (b.setConn { c with links := lk }) =
+      (absStore b).setClient c.name { absInfo c with links := lk } := absStore_setConn b { c with links := lk }
+  refine Eq.trans ?_ (hset.trans ?_)
+  · split
+    · split
+      · exact absStore_subscribeConn (c := { c with links := lk }) hnd1 hc1 _ _
+      · rfl
+    · rfl
+  · rw [← hlk]
+    simp [absInfo, ha, Spec.StoreState.setClient]
+
+theorem step_abs_presence (auth : Auth) (b : B) (c : Conn) (mid : UInt16) (key channel : Bytes) (status : Bool)
+    (changes : Option Bool) (hnd : (b.conns.map (·.name)).Nodup) (hc : b.conn? c.name = some c)
+    (ha : c.alive = true) :
+    absStore (step auth b c.name (.presence mid key channel status changes)).1 =
+      Spec.stepStore auth (absStore b) c.name (.presence mid key channel status changes) := by
+  rw [Spec.stepStore_idle (client?_of_conn hc) trivial]
+  simp only [step, hc]; rw [if_neg (by simp [ha])]
+  generalize (if channel.getLast? == some sep then channel else channel ++ [sep]) = chn
+  split
+  · rfl
+  split
+  · rfl
+  split
+  · rfl
+  split <;> (dsimp only [Option.getD_some]; split)
+  · exact absStore_subscribeConn hnd hc _ _
+  · exact absStore_unsubscribeConn hnd hc _ _
+  · rfl
+  · exact absStore_subscribeConn hnd hc _ _
+  · exact absStore_unsubscribeConn hnd hc _ _
+  · rfl
+
+/-! ### the end of a connection -/
+
+theorem closeF_abs (name : String) : ∀ (cs : List Counter) (acc : B × Out),
+    (acc.1.conns.map (·.name)).Nodup →
+    absStore (cs.foldl (closeF name) acc).1 = absStore acc.1 ∧
+    ((cs.foldl (closeF name) acc).1.conns.map (·.name)).Nodup
+  | [], _, h => ⟨rfl, h⟩
+  | ctr :: rest, acc, h => by
+      rw [List.foldl_cons]
+      have hstep : absStore (closeF name acc ctr).1 = absStore acc.1 ∧
+          ((closeF name acc ctr).1.conns.map (·.name)).Nodup := by
+        unfold closeF
+        cases hcur : acc.1.conn? name with
+        | none => exact ⟨rfl, h⟩
+        | some cur =>
+            dsimp only
+            have hc : acc.1.conn? cur.name = some cur := by rw [conn?_name hcur]; exact hcur
+            refine ⟨absStore_unsubscribeConn h hc _ _, ?_⟩
+            rw [unsubscribeConn_conns', setConn_names]
+            exact h
+      obtain ⟨i1, i2⟩ := closeF_abs name rest (closeF name acc ctr) hstep.2
+      exact ⟨i1.trans hstep.1, i2⟩
+
+theorem lastWill_retain (auth : Auth) (b : B) (c : Conn) : (lastWill auth b c).1.retain = b.retain := by
+  unfold lastWill
+  dsimp only
+  split
+  · rfl
+  split
+  · rfl
+  split
+  · rfl
+  split
+  · rfl
+  split <;> rfl
+
+theorem lastWill_keep (auth : Auth) (b : B) (c : Conn) (g : Grant)
+    (h1 : c.hasConnect = true) (h2 : c.willFlag = true) (h3 : (parseChannel c.willTopic).ctype = chStatic)
+    (h4 : auth b.banned (parseChannel c.willTopic) permWrite = some g) (h5 : g.has permExtend = false) :
+    (lastWill auth b c).1 = keep b g (parseChannel c.willTopic) c.willRetain c.willMessage := by
+  unfold lastWill
+  dsimp only
+  rw [if_neg (by simp [h1, h2]), if_neg (by simp [h3])]
+  simp only [h4, h5, Bool.false_eq_true, if_false]
+  rfl
+
+/-- the last will is stored under the rule of a publish: the record `Spec.stored` names for the
+will announced at CONNECT -/
+theorem lastWill_abs (auth : Auth) (b : B) (c : Conn) :
+    absStore (lastWill auth b c).1 =
+      { absStore b with log := (absStore b).log ++
+          (match (absInfo c).will with
+           | some w => Spec.stored auth b.banned b.retain (absStore b).log.length w.retain w.topic w.message
+           | none => none).toList } := by
+  by_cases hex : ∃ g, c.hasConnect = true ∧ c.willFlag = true ∧ (parseChannel c.willTopic).ctype = chStatic ∧
+        auth b.banned (parseChannel c.willTopic) permWrite = some g ∧ g.has permExtend = false
+  · obtain ⟨g, h1, h2, h3, h4, h5⟩ := hex
+    rw [lastWill_keep auth b c g h1 h2 h3 h4 h5, absStore_keep]
+    simp only [absInfo, h1, h2, Bool.and_self, if_true]
+    rw [Spec.stored_accepted _ _ _ _ h3 h4 h5]
+    rfl
+  · rw [lastWill_bad auth b c hex]
+    cases hw : (absInfo c).will with
+    | none => simp
+    | some w =>
+        have hcw : c.hasConnect = true ∧ c.willFlag = true ∧ w = ⟨c.willRetain, c.willTopic, c.willMessage⟩ := by
+          simp only [absInfo] at hw
+          split at hw
+          · rename_i h
+            simp only [Bool.and_eq_true] at h
+            exact ⟨h.1, h.2, (Option.some.inj hw).symm⟩
+          · cases hw
+        obtain ⟨h1, h2, rfl⟩ := hcw
+        dsimp only
+        rw [Spec.stored_refused]
+        · simp
+        · by_cases h3 : (parseChannel c.willTopic).ctype = chStatic
+          · right
+            cases h4 : auth b.banned (parseChannel c.willTopic) permWrite with
+            | none => exact Or.inl rfl
+            | some g =>
+                right
+                refine ⟨g, rfl, ?_⟩
+                cases h5 : g.has permExtend with
+                | true => rfl
+                | false => exact absurd ⟨g, h1, h2, h3, h4, h5⟩ hex
+          · exact Or.inl h3
+
+theorem step_abs_close (auth : Auth) (b : B) (c : Conn)
+    (hnd : (b.conns.map (·.name)).Nodup) (hc : b.conn? c.name = some c) (ha : c.alive = true) :
+    absStore (step auth b c.name .close).1 = Spec.stepStore auth (absStore b) c.name .close := by
+  have hi := client?_of_conn hc
+  have ho : (absInfo c).open_ = true := ha
+  simp only [Spec.stepStore, hi, ho, Spec.appended, Bool.not_true, Bool.false_eq_true, if_false]
+  rw [step_close_eq auth b c.name c hc ha, closeConn_eq]
+  generalize hF : (c.counters.foldl (closeF c.name) ({ b with open_ := b.open_ - 1 }, [])) = F
+  obtain ⟨f1, f2⟩ := closeF_abs c.name c.counters ({ b with open_ := b.open_ - 1 }, []) hnd
+  rw [hF] at f1 f2
+  have f1' : absStore F.1 = absStore b := f1
+  have hcl := client?_abs F.1 c.name
+  rw [f1', hi] at hcl
+  cases hq : F.1.conn? c.name with
+  | none => rw [hq] at hcl; cases hcl
+  | some cF =>
+      rw [hq] at hcl
+      have hinfo : absInfo cF = absInfo c := (Option.some.inj hcl).symm
+      have hname : cF.name = c.name := conn?_name hq
+      dsimp only [Option.getD_some]
+      show absStore ((lastWill auth F.1 cF).1.setConn { cF with alive := false }) = _
+      rw [absStore_setConn, lastWill_abs, f1', hinfo]
+      have hb : F.1.banned = b.banned := congrArg Spec.StoreState.banned f1'
+      have hr : F.1.retain = b.retain := congrArg Spec.StoreState.retention f1'
+      rw [hb, hr]
+      have : absInfo { cF with alive := false } = { absInfo c with open_ := false } := by
+        rw [← hinfo]; rfl
+      rw [this]
+      show Spec.StoreState.setClient _ cF.name _ = _
+      rw [hname]
+      rfl
+
 end Emitter.Broker
